@@ -682,7 +682,7 @@ def main(tier):
             roots = ex.pool.map(_pair_task, [(n, [[]], 9, True) for n in names], chunksize=1)
             for n, r in zip(names, roots):
                 pts = r.get("root_points") or []
-                npts, budget = max(len(pts), 1), (700 if quick else 300000)
+                npts, budget = max(len(pts), 1), (700 if quick else 120000)
                 bound = 1
                 for b, est in ((2, 0.5 * npts ** 2), (3, 0.17 * npts ** 3)):
                     if est <= budget:
